@@ -24,4 +24,9 @@ def secAlg (mac : Bool) : Handler
     | _, _, _, _, _, _ => badOp
   | _ => badOp
 
+def secAlgHandlers : List (String × Handler) := [
+  ("nasenc", secAlg false),
+  ("nasmac", secAlg true)
+]
+
 end Driver
